@@ -1,20 +1,97 @@
-"""C01 — handler never runs concurrently with itself (E3). WORK IN PROGRESS."""
+"""C01 — an actor's message handler never runs concurrently with itself (E3 controlled schedules
+on the real doReceive / runTurn / finishOrReclaim / restartSubtree + dispatch state + mailbox)."""
 ID = "C01"
 WIP = True
-LEAN_MODULES = []
+LEAN_MODULES = ["GoaktVerif.Model.C01"]
 THEOREMS = []
-DRIVER = False
 INPKG = ["actor/zz_verif_mbox.go", "actor/zz_verif_c01.go"]
+HARNESS = "c01"
 INSTRUMENT = ["actor/dispatch_state.go", "actor/unbounded_mailbox.go", "actor/dispatcher.go", "actor/worker.go", "actor/pid.go"]
 INSTRUMENT_ARGS = {
     "actor/dispatcher.go": ["-funcs", "none", "-entry", "dispatcher.schedule"],
     "actor/worker.go": ["-funcs", "none", "-entry", "worker.reschedule"],
     "actor/pid.go": ["-funcs", "restartSubtree"],
 }
-JUDGE = False
+SITES = {
+    "actor/dispatch_state.go:dispatchState.Load": ["Load:v"],
+    "actor/dispatch_state.go:dispatchState.TrySchedule": ["Load:v", "CAS:v"],
+    "actor/dispatch_state.go:dispatchState.TakeForProcessing": ["CAS:v"],
+    "actor/dispatch_state.go:dispatchState.YieldToScheduled": ["Store:v"],
+    "actor/dispatch_state.go:dispatchState.reset": ["Store:v"],
+    "actor/unbounded_mailbox.go:UnboundedMailbox.Enqueue": ["Store:next", "Swap:tail", "Store:next"],
+    "actor/unbounded_mailbox.go:UnboundedMailbox.Dequeue": ["Load:head", "Load:next", "Store:head", "Store:next"],
+    "actor/unbounded_mailbox.go:UnboundedMailbox.IsEmpty": ["Load:head", "Load:next"],
+    "actor/dispatcher.go:dispatcher.schedule": ["Call:schedule"],
+    "actor/worker.go:worker.reschedule": ["Call:reschedule"],
+    "actor/pid.go:restartSubtree": ["Add:restartCount"],
+}
+TIMEOUT = 900
+
+
+def one_case(rng, restart_p=0.3, maxsched=90):
+    nw = rng.randint(1, 3)
+    budget = rng.randint(1, 3)
+    progs = []
+    mid = 1
+    if rng.random() < restart_p:
+        ops = ["r"]
+        for _ in range(rng.randint(0, 2)):
+            ops.append(f"t{mid}")
+            mid += 1
+        progs.append(ops)
+    for _ in range(rng.randint(1, 3)):
+        ops = []
+        for _ in range(rng.randint(1, 3)):
+            ops.append(f"t{mid}")
+            mid += 1
+        progs.append(ops)
+    for w in range(nw):
+        progs.append([f"w{w}"] * rng.randint(1, 4))
+    rng.shuffle(progs)
+    nt = len(progs)
+    style = rng.random()
+    if style < 0.5:
+        sched = [rng.randrange(nt) for _ in range(rng.randint(0, maxsched))]
+    else:
+        # bursty: long runs of one thread, few preemptions (PCT-like)
+        sched = []
+        for _ in range(rng.randint(1, 8)):
+            sched += [rng.randrange(nt)] * rng.randint(1, 16)
+    return f"{nw} {budget} | " + " ; ".join(" ".join(p) for p in progs) + " | " + " ".join(map(str, sched))
+
 
 def gen_cases(rng, tier):
-    return [
-        "2 2 | t1 t2 ; w0 w0 | 0 0 0 0 0 0 1 1 1 1 1 1 1 1 1 1",
-        "2 2 | t1 ; r ; w0 ; w1 | 1 0 0 0 0 0 0 2 2 2 2 2 2 2 2 2 1 1 1 1 1 1 1 1 3 3 3 3 3 3 3 3 3 3",
-    ]
+    n = 120 if tier == "quick" else 2500
+    return [one_case(rng) for _ in range(n)]
+
+
+def search_cases(rng, tier):
+    return [one_case(rng, restart_p=0.6, maxsched=140) for _ in range(1500)]
+
+
+def is_trivial(case, impl):
+    return not impl.startswith("T ")
+
+
+def tag(case, impl):
+    return ("restart" if " r" in case.split("|")[1] or case.split("|")[1].strip().startswith("r") else "plain")
+
+
+def oracle(case, impl, judge):
+    if impl.startswith("CRASH"):
+        return "harness crashed: " + impl
+    if "!stuck" in impl or impl.endswith("unfinished"):
+        return "a logical thread blocked outside the instrumented points: " + impl[-200:]
+    if judge is not None:
+        return None if judge.startswith("ok") else judge
+    import re
+    m = re.search(r" O=(\d+) ", impl)
+    if m and int(m.group(1)) > 1:
+        return f"bad C01: {m.group(1)} handler invocations in progress at once"
+    if " P=true" in impl:
+        return "bad C02: lost wake-up"
+    return None
+
+
+def classify(case, impl, why):
+    return None
